@@ -105,6 +105,12 @@ def events():
     # a tracked file renamed to another matching name of its channel (both names match the grammar)
     for a, b in (("A1", "A2"), ("A2", "A3"), ("A1", "A3"), ("B1", "B2")):
         evs.append(("move_to", a, b))
+    # observer restart with the new observer reporting a creation while the verification thread runs
+    for fid in FID:
+        evs.append(("rescan_race", fid, "after_walk"))
+    for fid in ("A2", "B2"):
+        evs.append(("rescan_race", fid, "after_remove"))
+        evs.append(("rescan_race", fid, "after_add"))
     evs += [("rescan",), ("add_all_sorted",), ("add_all_unsorted",), ("modify_all",), ("remove_untracked_on_disk",)]
     return evs
 
@@ -293,21 +299,101 @@ class World:
                 h.modify_files([fpath(top, f) for f in FID if os.path.exists(fpath(top, f))])
             elif kind == "remove_untracked_on_disk":
                 h.remove_files([fpath(top, f) for f in FID])
-            elif kind == "rescan":
-                # what DigitalRFRingbuffer._verify_ringbuffer_files does after an observer restart
-                from digital_rf import list_drf
+            elif kind in ("rescan", "rescan_race"):
+                # the REAL DigitalRFRingbuffer._restart / _verify_ringbuffer_files after an observer restart.
+                # The replacement observer is a stub and the verification "thread" is run by the explorer, so the
+                # schedule is ours: for ("rescan_race", fid, point) the new observer reports the creation of fid
+                # at the named point of the verification thread (end of the directory walk / after remove_files /
+                # after add_files); before the walk and after the verification are the sequential histories
+                # create;rescan and rescan;create that the alphabet already contains.
+                from digital_rf import list_drf, ringbuffer as rbmod
 
-                inbuffer = set(h.records.keys())
-                ondisk = set(list_drf.ilsdrf(top, include_drf=variant_of(self.cfg) != "nodrf", include_dmd=True, include_drf_properties=False,
-                                             include_dmd_properties=False))
-                deletions = inbuffer - ondisk
-                h.remove_files(deletions)
-                creations = ondisk - deletions
+                race = (fpath(top, ev[1]), ev[2]) if kind == "rescan_race" else None
+                # situation of the raced file when the restart begins: untracked ("new": the ordinary live case), tracked
+                # and on disk ("tracked"), or a stale record whose file is gone and is re-created under the same name
+                self.race_kind = None if not race else (
+                    "new" if race[0] not in h.records else ("tracked" if os.path.exists(race[0]) else "stale_record_recreated"))
+                fired = []
+
+                def fire(point):
+                    if race and race[1] == point and not fired:
+                        fired.append(point)
+                        rp = race[0]
+                        if not os.path.exists(rp):
+                            real_makedirs(os.path.dirname(rp), exist_ok=True)
+                            with open(rp, "wb") as f_:
+                                f_.write(b"x" * FID[ev[1]][4])
+                        on_disk_at_dispatch.add(rp)
+                        h.dispatch(FileCreatedEvent(rp))
+
+                real_makedirs = os.makedirs
+                rb = object.__new__(rbmod.DigitalRFRingbuffer)
+                rb.path, rb.starttime, rb.endtime = top, None, None
+                rb.include_drf, rb.include_dmd = variant_of(self.cfg) != "nodrf", True
+                rb.event_handler = h
+                rb._task_threads = []
+
+                class _Obs:
+                    def start(self_):
+                        pass
+
+                rb._init_observer = lambda: setattr(rb, "observer", _Obs())
+                pending = []
+
+                class _Thread:
+                    def __init__(self_, target=None, args=(), kwargs=None, **kw):
+                        self_.body = (target, args, kwargs or {})
+                        self_.daemon = False
+
+                    def start(self_):
+                        pending.append(self_.body)
+
+                    def is_alive(self_):
+                        return False
+
+                    def join(self_, *a):
+                        pass
+
+                real_ilsdrf = list_drf.ilsdrf
+                walked = []
+
+                def ilsdrf(*a, **k):
+                    for x in real_ilsdrf(*a, **k):
+                        walked.append(x)
+                        yield x
+                    fire("after_walk")
+
+                real_thread = rbmod.threading.Thread
+                real_rm, real_add = h.remove_files, h.add_files
+
+                def rm_files(*a, **k):
+                    r_ = real_rm(*a, **k)
+                    fire("after_remove")
+                    return r_
+
+                def add_files(*a, **k):
+                    r_ = real_add(*a, **k)
+                    fire("after_add")
+                    return r_
+
+                rbmod.threading.Thread = _Thread
+                list_drf.ilsdrf = ilsdrf
+                h.remove_files, h.add_files = rm_files, add_files
+                try:
+                    rb._restart()
+                    for tgt, a_, k_ in pending:
+                        tgt(*a_, **k_)
+                finally:
+                    rbmod.threading.Thread = real_thread
+                    list_drf.ilsdrf = real_ilsdrf
+                    del h.remove_files, h.add_files
+                if len(pending) != 1 or (race and not fired):
+                    raise core.HarnessError("restart harness: %d verification threads, race fired %r" % (len(pending), fired))
                 # (the trailing modify_files may legitimately leave the size limit exceeded until the
                 # next report, so the "limits hold again" clause is not evaluated for a re-scan)
-                reported_only = sorted(ondisk)
-                h.add_files(creations, sort=True)
-                h.modify_files(inbuffer & ondisk, sort=True)
+                reported_only = sorted(set(walked) | ({race[0]} if race else set()))
+                if race:
+                    newly_reported = [race[0]]
         except Exception as e:  # noqa: BLE001
             exc = e
         finally:
@@ -417,12 +503,14 @@ def check_transition(world, cfg, pre, ev, log, exc, newly, post):
     rev = {fpath(top, f): f for f in FID}
     for p in newly:
         if p in rev and watched(cfg, rev[p]) and os.path.exists(p) and p not in recs and not errs:
-            errs.append(({"class": "reported_file_on_disk_not_tracked", "event": ev[0]},
+            errs.append((dict({"class": "reported_file_on_disk_not_tracked", "event": ev[0]},
+                              **({"raced_file": world.race_kind} if ev[0] == "rescan_race" else {})),
                          "after %r: %s was reported, is on disk and of a watched kind, but is not in the tracked set" % (ev, rev[p])))
         if p in rev and not watched(cfg, rev[p]) and p in recs:
             errs.append(({"class": "unwatched_kind_tracked", "event": ev[0]}, "%s tracked although its kind is excluded" % rev[p]))
     newly = [p for p in newly if p in recs or p in removed_now]
-    if newly and not errs:
+    # (a re-scan ends with modify_files, see above: the clause is not evaluated for the raced re-scan either)
+    if newly and not errs and ev[0] != "rescan_race":
         tracked = {p: (r.key, r.size, r.group) for p, r in recs.items()}
         ex = limits_exceeded(cfg, tracked)
         if ex:
